@@ -679,11 +679,8 @@ def model_outputs(ctx, case, out, tag):
         return f"(model evaluation failed: {e})"
 
 # ---------------------------------------------------------------------------------------------- verdict helpers
-GUARDS = {"g_d3": "guard_d3", "g_names": "guard_names", "g_labels": "guard_labels", "g_parser": "guard_parser"}
+GUARDS = {"g_names": "guard_names", "g_labels": "guard_labels", "g_parser": "guard_parser"}
 PROPOSED = {   # findings this check proposes for known_findings.json (used for attribution only while not yet listed there)
-    "guard_d3": dict(id="C01-D3", witness="corpus/C01/d3_witness.json",
-                     text="two different variables of ONE source node project to the same target variable: _collect_from_edges keys by "
-                          "source node only, the first variable is used with the sum of both weights (silent wrong value)"),
     "guard_names": dict(id="C01-D22", witness="corpus/C01/d22_witness.json",
                         text="a name generated for the in_edge operator (source variable, target variable, `weight`, `<v>_in<i>`, "
                              "`weight_in<i>`) coincides with another one, e.g. source and target variable have the same name or a variable "
@@ -876,7 +873,7 @@ def check(ctx):
                         "with fan-in >= 2 or a same-node producer; distinct = distinct canonical JSON of (operators, circuit tree)",
                    samples=[sample],
                    extra=dict(input_distribution=hist, model_switch_fixed_D3=fixed_D3(), impl_vs_model_mismatches=len(badI), impl_vs_spec_mismatches=len(badS),
-                              raised=len(crashed), outside_guards={g: len(cmp_[k]) for k, g in GUARDS.items()},
+                              raised=len(crashed), outside_guards={g: len(cmp_[k]) for k, g in GUARDS.items()}, guard_d3_false=len(cmp_["g_d3"]),
                               attributed_to_proposed_findings={g: len(v) for g, v in pending.items()},
                               code_better_than_model_outside_guards=len(drift_out),
                               also_checked="state map positions pairwise distinct, inside y and covering exactly the declared state variables; "
@@ -884,7 +881,8 @@ def check(ctx):
                    trusted_base=["numpy float64 arithmetic is exact on the generated dyadic data (the generator rejects points whose intermediate "
                                  "values need more than 44 bits; results are compared as exact rationals)",
                                  "sympy parsing/printing and the generated Python source are outside the model; they are exercised by every case"],
-                   assumptions=["guards of C01_partial: guard_d3 (one source variable per source node and target variable), guard_names, "
-                                "guard_labels (no clash between generated names/labels and user names) — classified by the Coq booleans",
+                   assumptions=["guards of C01_full: guard_names, guard_labels (no clash between generated names/labels and user names), "
+                                "guard_parser — classified by the Coq booleans; the d3 stream (two variables of one source node into one "
+                                "target variable) is a regression stream since fix D59",
                                 "models without any differential equation, cyclic operator graphs and algebraic loops are not well-formed (Net.wf)",
                                 "IEEE rounding is outside the model: the model computes in Qc"])
